@@ -79,7 +79,10 @@ def build(case):
     if "poly" in case:
         xy = gp.build_polygon_xy(case["poly"])
         em = gp.embed(xy, case["emb"])
-        V, arg = em["verts"] * 10.0 ** case.get("xs", 0.0), em["normal_arg"]
+        xs = case.get("xs", 0.0)
+        if xs > 5.0 and case["emb"]["place"] is not None:
+            xs = 5.0  # tilted planes only up to 1e5 (Polygon's documented planarity tolerance, see C04)
+        V, arg = em["verts"] * 10.0 ** xs, em["normal_arg"]
         size = 2 * float(np.max(np.linalg.norm(V - V.mean(axis=0), axis=1)))
         kw = {} if arg is None else {"normal": arg.copy() if isinstance(arg, np.ndarray) else arg}
         if kind == "Polygon":
